@@ -130,6 +130,7 @@ def check_mean(case, ctx):
         ctx.check(np.array_equal(a, b), "BlockMean.filter modified one of its input arrays")
     ctx.check(isinstance(res, tuple) and len(res) == 3, "filter must return (coordinates, mean, weights)")
     out_coords, out_mean, out_w = res
+    ctx.check(isinstance(out_coords, tuple), "the block coordinates come back as a %s, documented (and returned in every other configuration) is a tuple of arrays", type(out_coords).__name__)
     if ncomp == 1:
         ctx.check(not isinstance(out_mean, tuple) and not isinstance(out_w, tuple), "single component must come back as arrays")
         out_mean, out_w = (out_mean,), (out_w,)
